@@ -1,6 +1,8 @@
 import Driver.Util
+import Driver.Timeint
 -- engines of work area Time: import your Driver.<Engine> modules above and list them here
 namespace Driver.Reg.Time
 def engines : List (String × IO UInt32) := [
+  ("timeint", Driver.runEngine Driver.Timeint.engine)
 ]
 end Driver.Reg.Time
